@@ -163,6 +163,8 @@ Boolean Double_2_ieee2(Double inp, Byte* pDest, Boolean NeedsBig) {
     Integer  Exponent;
     LongWord Mantissa, Fraction;
     Boolean  RoundUp;
+    int      Shift;
+    LongWord DecisionBit, LsbBit;
 
 #if DBG_FLOAT
     fprintf(stderr, "(0) %g\n", inp);
@@ -238,13 +240,25 @@ Boolean Double_2_ieee2(Double inp, Byte* pDest, Boolean NeedsBig) {
     /* Bits 27..18 of fractional part of mantissa will make it into dest, so the decision
      * bit is bit 17: */
 
-    if (Mantissa & 0x20000ul) /* fraction is >= 0.5 */
+    /* A number below the normal range (exponent < -14) keeps fewer bits: it will be
+     * shifted right by (-14 - Exponent) further down, so the decision bit moves up by
+     * the same amount.  Rounding here and truncating there would round twice, resp.
+     * not at all. */
+
+    Shift = (Exponent < -14) ? (-14 - Exponent) : 0;
+    if (Shift > 12) {
+        Shift = 12; /* everything is below half of the smallest subnormal */
+    }
+    DecisionBit = 0x20000ul << Shift;
+    LsbBit      = 0x40000ul << Shift;
+
+    if (Mantissa & DecisionBit) /* fraction is >= 0.5 */
     {
-        if ((Mantissa & 0x1fffful) || Fraction) { /* fraction is > 0.5 -> round up */
+        if ((Mantissa & (DecisionBit - 1)) || Fraction) { /* fraction is > 0.5 -> round up */
             RoundUp = True;
         } else { /* fraction is 0.5 -> round towards even, i.e. round up if mantissa is
                     odd */
-            RoundUp = !!(Mantissa & 0x40000ul);
+            RoundUp = !!(Mantissa & LsbBit);
         }
     } else { /* fraction is < 0.5 -> round down */
         RoundUp = False;
@@ -253,7 +267,7 @@ Boolean Double_2_ieee2(Double inp, Byte* pDest, Boolean NeedsBig) {
     fprintf(stderr, "RoundUp %u\n", RoundUp);
 #endif
     if (RoundUp) {
-        Mantissa += 0x40000ul - (Mantissa & 0x3fffful);
+        Mantissa += LsbBit - (Mantissa & (LsbBit - 1));
         Fraction = 0;
         if (Mantissa & 0x20000000ul) {
             Mantissa >>= 1;
